@@ -291,6 +291,18 @@ Theorem C16_preserves_nns : forall h160 prevN verN e args s s' v,
 Proof. exact deploy_nns_spec. Qed.
 Print Assumptions C16_preserves_nns.
 
+(** The re-serialised TLD state reads back as the old one with Owner = Null. *)
+Theorem C16_preserves_nns_tld_reads_back : forall fs d',
+  Forall wf_item fs ->
+  serialize (IStruct (INull :: tail fs)) = Halt d' ->
+  deserialize d' = Halt (IStruct (INull :: tail fs)).
+Proof.
+  intros fs d' Hwf H. apply serialize_halt in H as [-> Hc]. apply deserialize_ser; [|exact Hc].
+  cbn [wf_item]. apply wf_item_list. constructor; [exact I|].
+  destruct fs as [|f fs]; [constructor|]. cbn [tail]. apply Forall_cons in Hwf as [_ Hwf]. exact Hwf.
+Qed.
+Print Assumptions C16_preserves_nns_tld_reads_back.
+
 (** * C16_preserves for neofsid, audit, reputation, alphabet: only the
       listed non-notary leftovers disappear *)
 
@@ -315,6 +327,15 @@ Theorem C16_preserves_alphabet : forall stdacc prevN verN e args s s' trs (q : b
   q ∉ [k_notary; k_ballots; k_proxySH] -> s' !! q = s !! q.
 Proof. exact deploy_alphabet_frame. Qed.
 Print Assumptions C16_preserves_alphabet.
+
+(** The Alphabet contract's 0.16 -> 0.17 switch distributes at most 3/4 of
+    the contract's GAS (half of that to Proxy, the rest evenly to Inner Ring
+    and storage nodes, split between the node and its notary deposit). *)
+Theorem C16_alphabet_distribution_bounded : forall stdacc e args s s' trs,
+  alphabet_switch stdacc e args s = Halt (s', trs) -> 0 <= e_gas e ->
+  0 <= tr_sum trs <= e_gas e * 3 / 4.
+Proof. exact alphabet_switch_bounded. Qed.
+Print Assumptions C16_alphabet_distribution_bounded.
 
 (** * C16_pending_votes_block *)
 
